@@ -275,6 +275,57 @@ fn gen_r(r: &mut Prng) -> Case {
 }
 
 /// The four torn-read probes (DESIGN.md C13, family T).
+/// Family W: a WARM process.  The main task first evaluates a few dozen small programs (whatever the
+/// engine keeps about use counts, recency or look-up order is populated and keeps moving), then the
+/// threads evaluate small programs over the same few operators and functions concurrently.  Nothing is
+/// registered, so every call has exactly one correct result whatever the interleaving.
+fn gen_w(r: &mut Prng) -> Case {
+    let mut case = Case::new("W");
+    let pool: Vec<Expr> = vec![
+        bin("+", lit_i(1), lit_i(2)),
+        bin("-", lit_i(5), lit_i(3)),
+        bin("*", lit_i(2), lit_i(3)),
+        bin("/", lit_i(8), lit_i(2)),
+        bin("%", lit_i(7), lit_i(4)),
+        bin("==", lit_i(1), lit_i(1)),
+        bin("<", lit_i(1), lit_i(2)),
+        bin("&&", lit_b(true), lit_b(false)),
+        bin("beginWith", lit_s("abc"), lit_s("ab")),
+        call("max", vec![lit_i(1), lit_i(7)]),
+        call("min", vec![lit_i(3), lit_i(1)]),
+        un("-", lit_i(4)),
+        un("not", lit_b(false)),
+        post(lit_i(1), "++"),
+    ];
+    // the warm-up concentrates on two programs; so do the threads
+    let hot = [r.pick(&pool).clone(), r.pick(&pool).clone()];
+    let nwarm = 10 + r.usize(50);
+    for _ in 0..nwarm {
+        let e = if r.chance(3, 4) { r.pick(&hot).clone() } else { r.pick(&pool).clone() };
+        case.pre.push(Op::Exec { prog: Prog::one(e), ctx: CtxRef::Fresh(CtxSpec::empty()) });
+    }
+    let nthreads = 2 + r.usize(2);
+    for t in 0..nthreads {
+        case.slots.push(thread_ctx(t));
+        let n = 2 + r.usize(4);
+        let mut ops = vec![];
+        for _ in 0..n {
+            let e = if r.chance(1, 2) { r.pick(&hot).clone() } else { r.pick(&pool).clone() };
+            let prog = Prog::one(e);
+            ops.push(match r.below(4) {
+                0 => Op::Parse { prog },
+                1 => Op::ParseExec { prog, ctx: CtxRef::Fresh(thread_ctx(t)), times: 1 },
+                _ => Op::Exec { prog, ctx: CtxRef::Fresh(thread_ctx(t)) },
+            });
+        }
+        case.threads.push(ops);
+    }
+    for e in &hot {
+        case.post.push(Op::Exec { prog: Prog::one(e.clone()), ctx: CtxRef::Fresh(CtxSpec::empty()) });
+    }
+    case
+}
+
 pub fn template(name: &str) -> Case {
     let mut c = Case::new(name);
     let cst = |c: &mut Case, k: HKind, v: i64| c.add_handler(HandlerSpec::plain(k, Ret::Const(Val::int(v))));
@@ -446,7 +497,7 @@ impl Prop for C13 {
             level: "exploration",
             rule: "case = pre-ops + 2..4 simulated threads x 1..3 calls (execute/parse/parse+exec/register_* with unique marker handlers) \
                    + post-join uses, generated from the seed (family S: each evaluation looks up at most one concurrently registered name, once; \
-                   family R: threads only (re-)register infix operators with different complete configurations and unparenthesised chains reveal the outcome after the join; family T: the four fixed torn-read micro-histories); each case runs under a calibration schedule and a seeded portfolio \
+                   family R: threads only (re-)register infix operators with different complete configurations and unparenthesised chains reveal the outcome after the join; family W: 10..60 warm-up evaluations by the main task, then 2..3 threads evaluating small programs over the same operators concurrently, nothing registered; family T: the four fixed torn-read micro-histories); each case runs under a calibration schedule and a seeded portfolio \
                    (PCT depth 1..4 with windowed change points / sticky / uniform random). evaluations = simulated executions of the real engine; \
                    distinct_nontrivial = distinct (case, recorded schedule) pairs whose history contains at least one pair of calls from different \
                    threads that overlap in real time",
@@ -456,7 +507,7 @@ impl Prop for C13 {
                 "errors are compared by error-ness only",
             ],
             fault_kinds: &["first_use_race", "preempt_in_init", "preempt_in_call", "reg_overlaps_eval", "register_before_first_use", "fresh_process"],
-            probes: &["torn_T1", "torn_T2", "torn_T3", "torn_T4", "lin_witness_not_invocation_order"],
+            probes: &["torn_T1", "torn_T2", "torn_T3", "torn_T4", "lin_witness_not_invocation_order", "warm_process_then_concurrent_use"],
         }
     }
 
@@ -471,6 +522,9 @@ impl Prop for C13 {
             (template(TEMPLATES[((idx / 25) % 4) as usize]), 400u64)
         } else if idx % 25 == 23 {
             (gen_r(&mut r), 40u64)
+        } else if idx % 25 == 22 {
+            rt.probe("warm_process_then_concurrent_use");
+            (gen_w(&mut r), 40u64)
         } else {
             (gen_s(&mut r, tier == Tier::Thorough), if tier == Tier::Thorough { 60u64 } else { 40u64 })
         };
